@@ -3009,6 +3009,11 @@ class Mailbox:
         - `name`: The name of the mailbox to delete
         - `server`: The user server object
         """
+        # The leading `/` is the namespace prefix, not part of the mailbox
+        # name (get_mailbox() strips it too). Every path and db operation
+        # below must use the stripped name or it lands on an absolute path.
+        #
+        name = name[1:] if name and name[0] == "/" else name
         if name.lower() == "inbox":
             raise InvalidMailbox("You are not allowed to delete the inbox")
 
